@@ -151,7 +151,29 @@ def c19(tier):
             c.oblige(not bad, "no_std-links|%s" % name, {"rule": "no_std-dependency", "detail": "combination %s links %s" % (name, bad)})
     c.coverage["no_std_switch_combinations"] = len(lres)
     c.coverage["configs"] = cov
-    c.coverage["explanation"] = "crate of every instance in the transitive monomorphic cone of the entry points is the crate itself or core (plus std_detect feature probes); no local of an allocating type; no_std build has no std/alloc dependency"
+    # a reachable panic allocates under std (payload, message formatting in the default hook): the
+    # panic/assert obligations of the entry-point explorations are a clause of this property too.
+    # Only found panics count here; paths the exploration could not follow are C01's alarm.
+    from . import checks as CH
+    from .common import violation_key
+    try:
+        jobs, results = CH.machine_jobs(tier, kinds=("entry",))
+    except F.BuildError as e:
+        jobs, results = [], []
+    npaths = 0
+    for j, r in zip(jobs, results):
+        if not r or not r.get("ok"):
+            continue
+        npaths += r.get("results", 0)
+        for v in r.get("violations", []):
+            if v["rule"] == "panic-reachable" or v["rule"].startswith("obligation:assert:") or v["rule"] in ("unreachable-reached", "division-by-zero"):
+                c.violation("panic|" + violation_key(v, j), dict(v, job=j, note="a panic is reachable from an entry point: under std the panic runtime allocates"))
+    c.obligations += npaths
+    c.discharged += npaths
+    c.coverage["abstract_paths_without_panic"] = npaths
+    c.coverage["explanation"] = ("crate of every instance in the transitive monomorphic cone of the entry points is the crate itself or core (plus std_detect "
+                                 "feature probes); no local of an allocating type; no_std build has no std/alloc dependency; no panic or failed assertion "
+                                 "reachable on any explored abstract path of the entry points (a panic allocates under std)")
     for x in cov[:3]:
         c.sample(x)
     return c.finish()
